@@ -115,6 +115,7 @@ type vkCfg struct {
 	Cap     int64 `json:"cap"`
 	Ret     int64 `json:"ret"`
 	Compact bool  `json:"compact"`
+	Age     int64 `json:"age"` // 0 = no age limit; else the cut-off timestamp ("now - max age")
 }
 
 type vkEvent struct {
@@ -319,6 +320,13 @@ func (r *vkRun) opts() Options {
 	o := vOpts(r.dir, r.cfg.Cap*vUnit, false)
 	o.MaxLogMessages = r.cfg.Ret
 	o.Compact = r.cfg.Compact
+	if r.cfg.Age > 0 {
+		// age retention with a fixed clock: message timestamps are the value ids, and the
+		// package's own test hook computeTTL answers the cut-off of the configuration
+		o.MaxLogAge = time.Hour
+		cut := r.cfg.Age
+		computeTTL = func(time.Duration) int64 { return cut }
+	}
 	return o
 }
 
